@@ -15,10 +15,17 @@ PROP = {
 }
 
 TEXT = {
-    "text": "Error construction and wrapping (Errorf/WrapError, the location each node wraps with) are part of the render model; every "
-            "placement of a failing construct is compared with the real engine on every run and checked against the known position of the "
-            "construct. The Lean theorems (err_line, wrap_keeps_located) are added by the main line.",
-    "design_ref": "DESIGN.md 6 C07",
-    "note": NOTE,
-    "technique": "Lean 4 proof + model/implementation correspondence + placement oracle on the implementation",
+    "text": ('Theorems: an error that already carries a line (or a path) is returned unchanged by every enclosing node '
+              '(wrap_keeps_located, wrapAt_keeps), an unlocated error is located at the first node that wraps it and kept as the '
+              'cause (wrap_locates, cause_preserved_by_wrap), every failure leaving a node is a located error '
+              '(wrapFailAt_located, wrapAt_located), a failing object is reported at its own line with the evaluation error as '
+              "cause (obj_error_located, strict_undefined), a syntax error in an object is reported at the object token's line "
+              'which by C05 scan_line_at is start line + preceding newlines (parse_obj_error_line), and a run is output or an '
+              'error, never both (run_output_xor_error). Tie: the `errloc` stream places every kind of failing construct at every '
+              'nesting depth, with/without path and start line, compares model and real engine (kind, line, path, cause) and '
+              'checks the line against the known position.'),
+    "design_ref": 'DESIGN.md 6 C07',
+    "note": NOTE + (""),
+    "technique": ('Lean 4 proof (wrapError case analysis; AllFail predicate on interaction trees) + model/implementation '
+              'correspondence + placement oracle on the implementation'),
 }
